@@ -30,6 +30,8 @@ def shards(tier, seed):
     for i in range(4 if tier == "quick" else 16):
         out.append({"kind": "graphs_random", "count": 80 if tier == "quick" else 1000, "seed": seed, "shard": i})
     out.append({"kind": "states_all", "nmax": 2 if tier == "quick" else 3, "seed": seed, "shard": 0})
+    for i in range(2 if tier == "quick" else 8):
+        out.append({"kind": "history", "count": 120 if tier == "quick" else 1500, "seed": seed, "shard": i})
     for i in range(4 if tier == "quick" else 16):
         out.append({"kind": "states_random", "count": 150 if tier == "quick" else 2500, "seed": seed, "shard": i})
     return out
@@ -39,7 +41,7 @@ def floors(tier):
     return {"graph_to_density:calls": 300, "graph_to_stabilizer:calls": 300, "density_to_graph:calls": 200,
             "stabilizer_to_graph:calls": 300, "stabilizer_to_graph:noncanonical_presentations": 200, "state_to_graph:calls": 500,
             "state_to_graph:with_hadamards": 100, "state_to_graph:negative_signs": 200, "convert:pairs": 1000,
-            "set:convert_pairs": 6, "graphs:n>=20": 20, "state_to_graph:zero_sign_bits_nonstandard_presentation": 30}
+            "set:convert_pairs": 6, "graphs:n>=20": 20, "history:sequences": 200, "history:second_calls_on_same_object": 1500, "state_to_graph:zero_sign_bits_nonstandard_presentation": 30}
 
 
 class FinderProbe:
@@ -80,6 +82,10 @@ def run_shard(spec, ctx):
             A = graphs.random_graph(rng, n, [0.1, 0.3, 0.5, 0.8][i % 4])
             order = [int(v) for v in rng.permutation(n)] if i % 2 else None
             check_graph(A, order, ctx, rng, probe, all_pairs=(n <= 6))
+    elif k == "history":
+        for i in range(spec["count"]):
+            n = int(rng.integers(2, 8))
+            check_history(graphs.random_graph(rng, n, [0.2, 0.5, 0.8][i % 3]), ctx, int(rng.integers(2 ** 31)))
     elif k == "states_all":
         for n in range(1, spec["nmax"] + 1):
             for s in stab.all_states(n):
@@ -114,7 +120,9 @@ def run_shard(spec, ctx):
 def replay(case, ctx):
     probe = FinderProbe(ctx)
     rng = np.random.default_rng(case.get("rseed", 0))
-    if case["kind"] == "graph":
+    if case["kind"] == "history":
+        check_history(np.array(case["adj"]), ctx, case["rseed"])
+    elif case["kind"] == "graph":
         check_graph(np.array(case["adj"]), case.get("order"), ctx, rng, probe, all_pairs=True)
     else:
         check_state(pauli.PTab.from_labels(case["labels"]), ctx, rng, probe)
@@ -269,3 +277,137 @@ def check_state(t, ctx, rng, probe):
                 rho = dense.gate(rho, GATE[g[0]], [int(g[1])], n)
             if not np.allclose(rho, dense.ket2dm(dense.graph_state_vec(B)), atol=1e-8):
                 ctx.violation("state_to_graph_gates_do_not_reach_graph_state_dense", case, det, key="s2graph_wrong:dense")
+
+
+# ------------------------------------------------------------------------------------------ histories on the same objects
+def check_history(A, ctx, rseed):
+    """the same input object converted repeatedly, with the result of the previous call and then the input itself changed
+    in place in between: every call must describe the input as it is at the time of the call (no stale cache entry, no
+    result object shared between calls)"""
+    import graphiq.backends.state_rep_conversion as rc
+    import graphiq.backends.stabilizer.functions.transformation as tr
+    from graphiq.backends.stabilizer.functions.rep_conversion import get_stabilizer_tableau_from_graph, get_clifford_tableau_from_graph
+    from graphiq.state import QuantumState
+    rng = np.random.default_rng(rseed)
+    n = A.shape[0]
+    case = {"kind": "history", "adj": A.tolist(), "rseed": rseed}
+    ctx.case(("h", A.tobytes(), rseed), True, {"adjacency": A.tolist(), "workload": "history"} if ctx.evaluations % 200 == 0 else None)
+    ctx.count("history:sequences")
+
+    def toggles(A0, k):
+        B = A0.copy()
+        out = []
+        for _ in range(k):
+            i, j = [int(v) for v in rng.choice(n, size=2, replace=False)]
+            B = B.copy()
+            B[i, j] ^= 1
+            B[j, i] ^= 1
+            out.append((i, j, B))
+        return out
+
+    def tab_group(t):
+        return gq.clifford_stab_ptab(t) if type(t).__name__ == "CliffordTableau" else gq.stabilizer_tableau_to_ptab(t)
+
+    def spoil(res):
+        # change the previous result in place, the way a simulation that uses it as its state would
+        if isinstance(res, np.ndarray):
+            res *= 0.5
+        else:
+            q = int(rng.integers(n))
+            tr.hadamard_gate(res, q)
+            tr.phase_gate(res, q)
+            tr.cnot_gate(res, q, (q + 1) % n)
+
+    graph_fns = [("graph_to_stabilizer", lambda g: rc.graph_to_stabilizer(g)[0][1], "tab"),
+                 ("get_stabilizer_tableau_from_graph", get_stabilizer_tableau_from_graph, "tab"),
+                 ("get_clifford_tableau_from_graph", get_clifford_tableau_from_graph, "tab")]
+    if n <= 6:
+        graph_fns.append(("graph_to_density", rc.graph_to_density, "dm"))
+    for name, f, out_kind in graph_fns:
+        for as_array in (False, True):
+            if as_array and name.startswith("get_"):
+                continue
+            cur = A.copy()
+            obj = cur.astype(float) if as_array else gq.nx_from_adj(cur, None)
+            steps = [("first", None)] + [("after_result_changed", None)] + [("after_input_changed", t) for t in toggles(cur, 2)]
+            prev = None
+            for what, tg in steps:
+                if what == "after_result_changed" and prev is not None:
+                    try:
+                        spoil(prev)
+                    except Exception:
+                        pass
+                if tg is not None:
+                    i, j, cur = tg
+                    if as_array:
+                        obj[i, j] = obj[j, i] = float(cur[i, j])
+                    elif cur[i, j]:
+                        obj.add_edge(i, j)
+                    else:
+                        obj.remove_edge(i, j)
+                try:
+                    res = f(obj)
+                except Exception as e:
+                    ctx.violation("conversion_raises_on_repeated_call", case, {"function": name, "step": what, "exception": _exc(e)}, key=f"hist_exc:{name}")
+                    break
+                if what != "first":
+                    ctx.count("history:second_calls_on_same_object")
+                if out_kind == "dm":
+                    ok = np.allclose(res, dense.ket2dm(dense.graph_state_vec(cur)), atol=1e-8)
+                else:
+                    ok = pauli.same_group_fast(tab_group(res), group_of(cur))
+                if not ok:
+                    ctx.violation("conversion_depends_on_earlier_calls", case, {"function": name, "input": "adjacency array" if as_array else "networkx graph",
+                                                                                 "step": what, "graph_now": cur.tolist()}, key=f"hist_wrong:{name}:{what}")
+                    break
+                prev = res
+    # ---- state-valued inputs: the same tableau object converted, overwritten in place with another graph state, converted again
+    B = toggles(A, 1)[0][2]
+    for name in ("stabilizer_to_graph", "state_to_graph"):
+        t = gq.ptab_to_stabilizer_tableau(pauli.scramble_generators(rng, group_of(A)))
+        t2 = gq.ptab_to_stabilizer_tableau(pauli.scramble_generators(rng, group_of(B)))
+        for what, want in (("first", A), ("repeat", A), ("after_input_changed", B)):
+            if what == "after_input_changed":
+                t.table = np.array(t2.table).copy()
+                t.phase = np.array(t2.phase).copy()
+            try:
+                if name == "stabilizer_to_graph":
+                    G = rc.stabilizer_to_graph(t)[0][1]
+                    got = gq.adj_from_nx(G, nodelist=range(n))
+                    ok = np.array_equal(got, want)
+                else:
+                    G, tab, gates = rc.state_to_graph(t)
+                    got = gq.adj_from_nx(G, nodelist=range(n))
+                    u = group_of(want)
+                    for g_ in gates:
+                        u.apply(GATE[g_[0]], int(g_[1]))
+                    ok = pauli.same_group_fast(u, group_of(got))
+                if what != "first":
+                    ctx.count("history:second_calls_on_same_object")
+            except Exception as e:
+                ctx.violation("conversion_raises_on_repeated_call", case, {"function": name, "step": what, "exception": _exc(e)}, key=f"hist_exc:{name}")
+                break
+            if not ok:
+                ctx.violation("conversion_depends_on_earlier_calls", case, {"function": name, "step": what, "expected_graph": want.tolist(), "got": got.tolist()},
+                              key=f"hist_wrong:{name}:{what}")
+                break
+    # ---- a QuantumState converted back and forth repeatedly
+    if n <= 5:
+        q = QuantumState(gq.nx_from_adj(A, None), rep_type="g")
+        path = [["s", "g", "dm", "s", "dm", "g"], ["dm", "g", "s", "g", "dm", "s"]][int(rng.integers(2))]
+        for b in path:
+            try:
+                q.convert_representation(b)
+                if b == "g":
+                    ok = np.array_equal(gq.adj_from_nx(q.rep_data.data, nodelist=range(n)), A)
+                elif b == "s":
+                    ok = pauli.same_group_fast(gq.clifford_stab_ptab(q.rep_data.data), group_of(A))
+                else:
+                    ok = np.allclose(q.rep_data.data, dense.ket2dm(dense.graph_state_vec(A)), atol=1e-8)
+                ctx.count("history:second_calls_on_same_object")
+            except Exception as e:
+                ctx.violation("convert_representation_raises", case, {"path": path, "to": b, "exception": _exc(e)}, key=f"hist_convert_exc:{b}")
+                break
+            if not ok:
+                ctx.violation("convert_representation_changes_state", case, {"path": path, "to": b}, key=f"hist_convert_wrong:{b}")
+                break
